@@ -48,6 +48,121 @@ def _cls(path):
     return o
 
 
+_SET_CALLS = ("set", "frozenset")
+_ORDER_CONSUMERS = ("list", "tuple", "iter", "next", "enumerate", "zip", "map", "filter", "reversed", "str", "repr", "dict")
+
+
+def _is_set_expr(n, setnames):
+    if isinstance(n, (ast.Set, ast.SetComp)):
+        return True
+    if isinstance(n, ast.Call) and isinstance(n.func, ast.Name) and n.func.id in _SET_CALLS:
+        return True
+    if isinstance(n, ast.Name) and n.id in setnames:
+        return True
+    if isinstance(n, ast.BinOp) and isinstance(n.op, (ast.BitOr, ast.BitAnd, ast.Sub, ast.BitXor)):
+        return _is_set_expr(n.left, setnames) or _is_set_expr(n.right, setnames)
+    if isinstance(n, ast.Call) and isinstance(n.func, ast.Attribute) and n.func.attr in ("union", "intersection", "difference", "symmetric_difference", "copy") \
+            and _is_set_expr(n.func.value, setnames):
+        return True
+    return False
+
+
+def _set_order_uses(mod, tree):
+    """(iteration-order uses of sets, uses that cannot be classified).  Per function scope: names
+    bound to set expressions are tracked (flow-insensitively); a set expression or such a name may
+    appear in membership tests, len(), truth tests, set algebra and in-place set updates.  Being
+    iterated (for / comprehension / order-consuming builtin / join / pop / unpacking) is a
+    nondeterministic source; any other use (returned, stored, passed on) is left undecided."""
+    bad, unknown = [], []
+    scopes = [n for n in ast.walk(tree) if isinstance(n, (ast.FunctionDef, ast.AsyncFunctionDef, ast.Lambda))] + [tree]
+    for sc in scopes:
+        body = list(ast.walk(sc))
+        setnames = set()
+        changed = True
+        while changed:
+            changed = False
+            for n in body:
+                tgt = None
+                if isinstance(n, ast.Assign) and len(n.targets) == 1 and isinstance(n.targets[0], ast.Name):
+                    tgt, val = n.targets[0].id, n.value
+                elif isinstance(n, ast.AnnAssign) and isinstance(n.target, ast.Name) and n.value is not None:
+                    tgt, val = n.target.id, n.value
+                elif isinstance(n, ast.NamedExpr):
+                    tgt, val = n.target.id, n.value
+                if tgt and tgt not in setnames and _is_set_expr(val, setnames):
+                    setnames.add(tgt)
+                    changed = True
+        parent = {}
+        for n in body:
+            for ch in ast.iter_child_nodes(n):
+                parent[id(ch)] = n
+        seen = set()
+        for n in body:
+            if not _is_set_expr(n, setnames) or id(n) in seen:
+                continue
+            if isinstance(n, ast.Name) and isinstance(n.ctx, ast.Store):
+                continue
+            seen.add(id(n))
+            p = parent.get(id(n))
+            where = f"{mod}:{getattr(n, 'lineno', 0)} {ast.unparse(n)[:40]}"
+            if p is None:
+                continue
+            if isinstance(p, ast.Compare) and n in p.comparators and all(isinstance(o, (ast.In, ast.NotIn)) for o in p.ops):
+                continue
+            if isinstance(p, ast.Compare):            # ==, <=, ... between sets: order-free
+                continue
+            if isinstance(p, (ast.Assign, ast.AnnAssign, ast.NamedExpr, ast.AugAssign)):
+                continue
+            if isinstance(p, ast.BinOp) and _is_set_expr(p, setnames):
+                continue
+            if isinstance(p, (ast.If, ast.While, ast.BoolOp, ast.IfExp)) or (isinstance(p, ast.UnaryOp) and isinstance(p.op, ast.Not)):
+                continue
+            if isinstance(p, ast.Expr):
+                continue
+            if isinstance(p, ast.Attribute) and p.value is n:
+                if p.attr in ("add", "update", "discard", "remove", "clear", "issubset", "issuperset", "isdisjoint", "union", "intersection",
+                              "difference", "symmetric_difference", "copy", "intersection_update", "difference_update", "__contains__"):
+                    continue
+                if p.attr == "pop":
+                    bad.append(where + " .pop() takes an arbitrary element")
+                    continue
+                unknown.append(where + f" .{p.attr}")
+                continue
+            if isinstance(p, ast.Call) and n in p.args:
+                fn = p.func
+                if isinstance(fn, ast.Name) and fn.id in ("len", "bool", "isinstance", "sorted", "min", "max", "sum", "any", "all", "set", "frozenset"):
+                    continue
+                if isinstance(fn, ast.Name) and fn.id in _ORDER_CONSUMERS:
+                    bad.append(where + f" passed to {fn.id}() (set iteration order)")
+                    continue
+                if isinstance(fn, ast.Attribute) and fn.attr == "join":
+                    bad.append(where + " joined (set iteration order)")
+                    continue
+                if isinstance(fn, ast.Attribute) and fn.attr in ("update", "union", "intersection", "difference", "issubset", "issuperset", "isdisjoint") :
+                    continue
+                unknown.append(where + " passed to " + ast.unparse(fn)[:30])
+                continue
+            if isinstance(p, ast.comprehension) and p.iter is n:
+                # iterating a set to build another set / test membership is order-free only if the
+                # result is a set or an any()/all()/sum(); conservatively: order use
+                gp = None
+                for q in body:
+                    if isinstance(q, (ast.SetComp, ast.ListComp, ast.GeneratorExp, ast.DictComp)) and p in q.generators:
+                        gp = q
+                if isinstance(gp, ast.SetComp):
+                    continue
+                bad.append(where + " iterated (set iteration order)")
+                continue
+            if isinstance(p, (ast.For, ast.AsyncFor)) and p.iter is n:
+                bad.append(where + " iterated (set iteration order)")
+                continue
+            if isinstance(p, ast.Starred) or (isinstance(p, ast.Assign) and isinstance(p.targets[0], (ast.Tuple, ast.List))):
+                bad.append(where + " unpacked (set iteration order)")
+                continue
+            unknown.append(where + " used in " + type(p).__name__)
+    return bad, unknown
+
+
 def run(reg, idx, name, timeout_ms=None, seed=0):
     t0 = time.time()
     res = {"name": name, "engine": "fxvc", "status": "ok", "reason": "", "obligations": [], "callees": [], "notes": [],
@@ -109,18 +224,22 @@ def run(reg, idx, name, timeout_ms=None, seed=0):
                 if "lru_cache" in memo[0]:
                     obs.append(ob(f"fx/{key}/memo-keyed-by-all-arguments", "(" not in memo[0] or "typed" in memo[0] or memo[0].endswith("lru_cache") or "maxsize" in memo[0], memo[0]))
             # nondeterminism
-            nd = []
+            nd, nd_unknown = [], []
             for mod, tree in idx.trees.items():
                 for n in ast.walk(tree):
                     if isinstance(n, ast.Attribute) and n.attr in frames.NONDET:
                         nd.append(f"{mod}:{n.lineno} {ast.unparse(n)}")
                     elif isinstance(n, ast.Name) and n.id in frames.NONDET:
                         nd.append(f"{mod}:{n.lineno} {n.id}")
-                    elif isinstance(n, (ast.Set, ast.SetComp)):
-                        nd.append(f"{mod}:{n.lineno} set iteration order")
-                    elif isinstance(n, ast.Call) and isinstance(n.func, ast.Name) and n.func.id in ("set", "frozenset", "id", "hash"):
+                    elif isinstance(n, ast.Call) and isinstance(n.func, ast.Name) and n.func.id in ("id", "hash"):
                         nd.append(f"{mod}:{n.lineno} {ast.unparse(n)[:40]}")
+                a, b = _set_order_uses(mod, tree)
+                nd += a
+                nd_unknown += b
             obs.append(ob("fx/package/no-nondeterministic-source", not nd, nd))
+            # a set (hash order, randomised per process for str/enum keys) that is used for anything
+            # but membership tests, size, truth and set algebra: cannot be decided syntactically
+            obs.append(ob("fx/package/sets-used-for-membership-only", not nd_unknown, nd_unknown, status=None if not nd_unknown else "undecided"))
             # per-call accumulators
             pdm = fr.get("chartparse.track:parse_data_from_chart_lines")
             obs.append(ob("fx/chartparse.track:parse_data_from_chart_lines/accumulator-allocated-per-call", pdm is not None and "m" in pdm.own, "m = ParsedDataMap()"))
